@@ -17,6 +17,8 @@ import (
 	"github.com/ipld/go-ipld-prime/node/basicnode"
 	"github.com/ipld/go-ipld-prime/storage/memstore"
 	"github.com/ipni/go-libipni/ingest/schema"
+	"github.com/libp2p/go-libp2p/core/crypto"
+	"github.com/libp2p/go-libp2p/core/peer"
 	"github.com/multiformats/go-multicodec"
 	"github.com/multiformats/go-multihash"
 
@@ -175,7 +177,7 @@ type corpusItem struct {
 
 func TestCheck(t *testing.T) {
 	r := vp.New("C13", "exploration",
-		"advertisements: product of {previous link} x {entries: NoEntries, dag-json link, dag-cbor link} x {0..2 addresses} x {context ID 0/1/64} x {metadata 0/1/1024} x {signature empty/non-empty} x {IsRm} x {extended providers absent / present with 0,1,2 providers} x {override} x {zero-length lists and byte strings empty / nil}; what is decoded must encode to the bytes it was decoded from, and a loaded value stored again must give the same CID; entry chunks: 0..3 multihashes of mixed hash functions (sha2-256, sha2-512, identity, truncated sha2-256, a two-byte code (blake2b-256), a length of two varint bytes) x {next link}; both codecs; store twice through Linkproto; load with typed and with generic prototype. Decoder: for each corpus block every single-byte substitution, every truncation, CBOR header tokens / JSON structural tokens at every offset, all byte strings of length <=2, for both decoders and both codecs and for the generic-node unwrap path; after every block that the unwrap path rejects a small valid block is decoded and compared (a rejection leaves nothing behind). Non-trivial: values with at least one optional part or list element; decoder inputs other than the corpus itself.",
+		"advertisements: product of {previous link} x {entries: NoEntries, dag-json link, dag-cbor link} x {0..2 addresses} x {context ID 0/1/64} x {metadata 0/1/1024} x {signature empty/non-empty} x {IsRm} x {extended providers absent / present with 0,1,2 providers} x {override} x {zero-length lists and byte strings empty / nil}; what is decoded must encode to the bytes it was decoded from, and a loaded value stored again must give the same CID; advertisements signed by the library with 0..2 further extended providers x {the provider's own entry with addresses and metadata, without both, without either} x {its position} x {override}, stored, loaded with both prototypes, validated and verified, then compared and stored again; entry chunks: 0..3 multihashes of mixed hash functions (sha2-256, sha2-512, identity, truncated sha2-256, a two-byte code (blake2b-256), a length of two varint bytes) x {next link}; both codecs; store twice through Linkproto; load with typed and with generic prototype. Decoder: for each corpus block every single-byte substitution, every truncation, CBOR header tokens / JSON structural tokens at every offset, all byte strings of length <=2, for both decoders and both codecs and for the generic-node unwrap path; after every block that the unwrap path rejects a small valid block is decoded and compared (a rejection leaves nothing behind). Non-trivial: values with at least one optional part or list element; decoder inputs other than the corpus itself.",
 		"equality is semantic: nil and empty are the same for non-optional lists and byte strings; optional parts must keep absent-vs-present",
 		"decoder inputs are within one token of a valid block or at most 2 bytes long",
 	)
@@ -329,6 +331,8 @@ func TestCheck(t *testing.T) {
 			r.Sample(map[string]any{"advertisement": s.String(), "cid": c1.String()})
 		}
 	}
+
+	checkSignedAds(r)
 
 	// ---- entry chunks ----
 	// also multihashes whose code or whose length takes more than one byte of
@@ -613,6 +617,130 @@ func TestCheck(t *testing.T) {
 		}
 	}
 	t.Logf("violations: %d", r.Violations())
+}
+
+// checkSignedAds: advertisements signed by the library (Sign,
+// SignWithExtendedProviders), in every shape of the top-level provider's own
+// entry the schema documents (addresses and metadata of its own, omitted, only
+// one of them), stored, loaded with both prototypes and unwrapped; what a
+// receiver then does with a loaded advertisement before it hands it on
+// (Validate, PreviousCid, VerifySignature) is read-only: the loaded value still
+// equals the stored one and, stored again, gives the CID it was loaded by.
+func checkSignedAds(r *vp.Recorder) {
+	main, x, y := fixture.Key("ed25519", 0), fixture.Key("secp256k1", 1), fixture.Key("ed25519", 2)
+	keyFor := func(id string) (crypto.PrivKey, error) {
+		for _, i := range []*fixture.Identity{main, x, y} {
+			if i.ID.String() == id {
+				return i.Priv, nil
+			}
+		}
+		return nil, fmt.Errorf("no key for %s", id)
+	}
+	for nOthers := -1; nOthers <= 2; nOthers++ { // -1: no extended providers at all
+		for mainEntry := 0; mainEntry < 4; mainEntry++ { // own addrs+md, both omitted, addrs omitted, md omitted
+			for mainPos := 0; mainPos <= 2; mainPos++ {
+				for _, ovr := range []bool{false, true} {
+					for _, ctxLen := range []int{0, 5} {
+						if nOthers < 0 && (mainEntry > 0 || mainPos > 0 || ovr) {
+							continue
+						}
+						if mainPos > max(nOthers, 0) || (ovr && ctxLen == 0) {
+							continue
+						}
+						key := fmt.Sprintf("signed-ad|others=%d|main-entry=%d|main-pos=%d|ovr=%v|ctx=%d", nOthers, mainEntry, mainPos, ovr, ctxLen)
+						if !r.Mine(key) {
+							continue
+						}
+						r.Eval(key, true)
+						ad := &schema.Advertisement{Provider: main.ID.String(), PreviousID: lnk("prev"), Entries: lnk("entries"),
+							Addresses: []string{"/ip4/9.9.9.9/tcp/9", "/dns4/a.example/tcp/443/https"}, ContextID: fixture.Bytes(ctxLen, 7), Metadata: []byte{0x80, 0x12, 0x01}}
+						if nOthers >= 0 {
+							me := schema.Provider{ID: main.ID.String(), Addresses: []string{"/ip4/8.8.8.8/tcp/8", "/ip4/7.7.7.7/tcp/7"}, Metadata: []byte("own-md")}
+							if mainEntry == 1 || mainEntry == 2 {
+								me.Addresses = []string{}
+							}
+							if mainEntry == 1 || mainEntry == 3 {
+								me.Metadata = []byte{}
+							}
+							list := []schema.Provider{}
+							for i, o := range []*fixture.Identity{x, y}[:nOthers] {
+								list = append(list, schema.Provider{ID: o.ID.String(), Addresses: []string{fmt.Sprintf("/ip4/5.5.5.%d/tcp/5", i)}, Metadata: []byte{byte(i)}})
+							}
+							list = append(list[:mainPos:mainPos], append([]schema.Provider{me}, list[mainPos:]...)...)
+							ad.ExtendedProvider = &schema.ExtendedProvider{Override: ovr, Providers: list}
+						}
+						var err error
+						if nOthers < 0 {
+							err = ad.Sign(main.Priv)
+						} else {
+							err = ad.SignWithExtendedProviders(main.Priv, keyFor)
+						}
+						if err != nil {
+							r.Violation("signed-ad:sign-error", key, err.Error(), nil)
+							continue
+						}
+						want := adCanon(ad)
+						node, err := ad.ToNode()
+						if err != nil {
+							r.Violation("signed-ad:ToNode", key, err.Error(), nil)
+							continue
+						}
+						lsys := cidlink.DefaultLinkSystem()
+						store := &memstore.Store{}
+						lsys.SetReadStorage(store)
+						lsys.SetWriteStorage(store)
+						l1, err := lsys.Store(ipld.LinkContext{}, schema.Linkproto, node)
+						if err != nil {
+							r.Violation("signed-ad:store-error", key, err.Error(), nil)
+							continue
+						}
+						c1 := l1.(cidlink.Link).Cid
+						for _, which := range []string{"generic", "typed"} {
+							var proto ipld.NodePrototype = basicnode.Prototype.Any
+							if which == "typed" {
+								proto = schema.AdvertisementPrototype
+							}
+							n, err := lsys.Load(ipld.LinkContext{}, l1, proto)
+							if err != nil {
+								r.Violation("signed-ad:load-error", key, err.Error(), nil)
+								continue
+							}
+							la, err := schema.UnwrapAdvertisement(n)
+							if err != nil {
+								r.Violation("signed-ad:unwrap-error", key, err.Error(), nil)
+								continue
+							}
+							var signer peer.ID
+							var verr, valErr error
+							if pn, m := vp.Guard(func() { valErr = la.Validate(); _ = la.PreviousCid(); signer, verr = la.VerifySignature() }); pn {
+								r.Violation("signed-ad:panic", key, firstLine(m), nil)
+								continue
+							}
+							if verr != nil || signer != main.ID || valErr != nil {
+								r.Violation("signed-ad:loaded-ad-does-not-verify:"+which, key, fmt.Sprintf("validate: %v; verify: signer %s, %v", valErr, signer, verr), nil)
+								continue
+							}
+							if got := adCanon(la); got != want {
+								r.Violation("signed-ad:loaded-value-changed-by-validation-or-verification:"+which, key, fmt.Sprintf("after Validate, PreviousCid and VerifySignature the loaded advertisement reads\n %s\nstored was\n %s", got, want), nil)
+								continue
+							}
+							n3, err := la.ToNode()
+							if err != nil {
+								r.Violation("signed-ad:loaded-value-not-encodable:"+which, key, err.Error(), nil)
+								continue
+							}
+							l3, err := lsys.Store(ipld.LinkContext{}, schema.Linkproto, n3)
+							if err != nil || !l3.(cidlink.Link).Cid.Equals(c1) {
+								r.Violation("signed-ad:cid-changes-after-load-verify-and-store:"+which, key, fmt.Sprintf("stored %s, loaded (%s prototype), verified, stored again: %v (err %v)", c1, which, l3, err), nil)
+								continue
+							}
+							r.Outcome("signed-ad-ok")
+						}
+					}
+				}
+			}
+		}
+	}
 }
 
 func buildAdPtr(s adShape) *schema.Advertisement { a := buildAd(s); return &a }
